@@ -233,6 +233,15 @@ func (vc *VC) evalCallWith0(st *State, call *ast.CallExpr, preRecv *Term, preArg
 		env := &SpecEnv{vc: vc, st: st, old: st, vars: map[string]Term{}, pkg: vc.pkg}
 		return []Term{env.expandPure(callee, recv, args, call)}
 	}
+	if vc.spec.Opts["nonblocking"] == "true" && vc.quiet == 0 && !spec.Pure && spec.Opts["nonblocking"] != "true" && spec.Opts["foreach"] == "" {
+		if _, inRepo := vc.p.pkgs[spec.Pkg]; inRepo && spec.Kind == "func" {
+			vc.oblige(st, "nonblocking", "a function declared non-blocking calls only pure or non-blocking repository functions ("+spec.Key+" is not declared non-blocking)", vc.pos(call), "false", nil)
+		}
+	}
+	if fld := spec.Opts["foreach"]; fld != "" && recv != nil && isForeachCall(call) {
+		vc.execForeach(st, call, spec, callee, *recv, fld)
+		return nil
+	}
 	return vc.callByContract(st, spec, callee, isig, recv, args, call)
 }
 
@@ -822,6 +831,11 @@ func (vc *VC) evalWriteTarget(env *SpecEnv, e ast.Expr, text string, add func(h,
 				ci := vc.chanInfo(types.NewChan(types.SendRecv, t))
 				vc.heapGet(env.st, ci.bn, ci.bsort, types.NewSlice(ci.E))
 				addCond(ci.bn, "true")
+				// (the closed flags and read heads live in heaps shared by all channel types)
+				vc.chanClosed(env.st, "0")
+				vc.chanHead(env.st, "0")
+				addCond("Chc", "true")
+				addCond("Chh", "true")
 				if _, ok := vc.p.con.Ghosts["dropped"]; ok {
 					hn, hs, _, _ := vc.ghostHeap("dropped", env.pkg)
 					vc.heapGet(env.st, hn, hs, nil)
@@ -1201,6 +1215,14 @@ func (vc *VC) execSelectModel(st *State, x *ast.SelectStmt) []*State {
 		vc.oblige(st, "cancellable", "a select that may block has a <-ctx.Done() case (or a default)", vc.pos(x), "false", nil)
 	} else {
 		vc.oblige(st, "cancellable", "a select that may block has a <-ctx.Done() case (or a default)", vc.pos(x), "true", nil)
+	}
+	if vc.spec.Opts["nonblocking"] == "true" && vc.quiet == 0 {
+		// `opt nonblocking=true`: this function never waits for another goroutine: its selects need a default case
+		g := "false"
+		if hasDefault {
+			g = "true"
+		}
+		vc.oblige(st, "nonblocking", "a select in a function declared non-blocking has a default case", vc.pos(x), g, nil)
 	}
 	tg := &target{}
 	vc.targets = append(vc.targets, tg)
